@@ -190,7 +190,8 @@ def chk_function_of_answer(entry, words):
 def chk_history(entry, words, hist):
     """hist = list of answer ids 0..2 ; result j must equal the single-call result of answer hist[j]"""
     Rb = measure(entry, words)
-    alpha = [bytes((i * 7 + 1) % 256 for i in range(Rb)), bytes((i * 11 + 3) % 256 for i in range(Rb)), b"\xa5" * Rb]
+    alpha = [bytes((i * (7 + 4 * h) + 1 + 29 * h) % 256 for i in range(Rb)) for h in range(max(hist) + 1)]
+    alpha[2 % len(alpha)] = b"\xa5" * Rb if len(alpha) > 2 else alpha[-1]
     single = [one_creation(entry, words, a)["mnemonic"] for a in alpha]
     src = Source()
     out = []
@@ -302,6 +303,14 @@ def run(ctx):
                                             if not (e == "cli-new" and w not in (12, 24))], execute, chunk=1)
     hists = [list(h) for L in (1, 2, 3) for h in itertools.product(range(3), repeat=L)]
     hc = [{"k": "history", "entry": e, "words": w, "hist": h} for e in entries if e != "cli-new" for w in ((12, 24) if not ctx.thorough else LENGTHS) for h in hists]
+    # long runs of consecutive creations (pools / ring buffers of OS bytes that wrap around): 12 creations with 12 different
+    # answers, and 12 creations that revisit earlier answers
+    for e in entries:
+        if e == "cli-new":
+            continue
+        for w in LENGTHS:
+            hc.append({"k": "history", "entry": e, "words": w, "hist": list(range(12))})
+            hc.append({"k": "history", "entry": e, "words": w, "hist": [0, 1, 2, 3, 4, 5, 0, 1, 6, 7, 0, 8]})
     ctx.product("call-histories", hc, execute, chunk=4)
     ctx.product("os-source-unavailable", [{"k": "fail", "entry": e, "words": w, "exc": x} for e in entries for w in (12, 15, 24)
                                           for x in ("NotImplementedError", "OSError")], execute, chunk=2)
